@@ -46,6 +46,14 @@ pub fn profile(name: &str) -> VecCfg {
             max_len: 12,
             ..base
         },
+        // stamped writes with and without pending data, and what a re-import then sees
+        "stamps" => VecCfg {
+            kinds: kinds(&["push", "write", "stamped_write", "reimport"]),
+            pushes: vec![1],
+            ixs: vec![],
+            max_len: 6,
+            ..base
+        },
         "raw_full" => VecCfg {
             kinds: kinds(&[
                 "push", "truncate", "noop_truncate", "write", "flush", "stamped_write", "reset",
@@ -288,6 +296,8 @@ fn plan(property: &str, tier: &str) -> Vec<(&'static str, &'static str, usize)> 
                     ("bytes", "raw", 4),
                     ("bytes", "raw+pre_w3", 4),
                     ("bytes", "raw+pre_h2", 4),
+                    ("bytes", "stamps", 5),
+                    ("pco", "stamps", 5),
                     ("pco", "dense+pre_pm1", 4),
                     ("pco", "dense", 5),
                 ]
